@@ -50,7 +50,8 @@ class Case:
 
     def nm(self, ident):
         """Go identifier for an abstract type / function name (family N renames them)"""
-        return self.naming.get(ident, ident)
+        # the specification's strings are ASCII: U8 / A8 in a name stand for the non-ASCII letters u-umlaut / A-umlaut
+        return self.naming.get(ident, ident).replace('U8', '\u00fc').replace('A8', '\u00c4')
 
     def alias(self, pkg):
         """identifier under which package pkg is imported"""
@@ -295,6 +296,8 @@ class Case:
         P = self.P
         if it['k'] == 'set':
             s = P['sets'][it['i'] - 1]
+            if s.get('grp') == '=inline':
+                return 'wire.NewSet(%s)' % ', '.join(self.item_expr(x, frompkg, used) for x in s['items'])
             if s['pkg'] != frompkg:
                 used.add(s['pkg'])
                 return self.alias(s['pkg']) + '.' + self.nm(s['name'])
@@ -339,7 +342,7 @@ class Case:
         plain = []
         groups = {}
         for s in self.P['sets']:
-            if s['pkg'] != pkg:
+            if s['pkg'] != pkg or s.get('grp') == '=inline':
                 continue
             items = [self.item_expr(it, pkg, used) for it in s['items']]
             init = 'wire.NewSet(%s)' % ', '.join(items)
